@@ -260,8 +260,9 @@ theorem C16_pzpr_star_battle : statement_pzpr_star_battle :=
   fun n k bid hd hdn => Proofs.C16OneWay.star_battle n k bid hd hdn
 
 /-- **C16_pzpr_aquarium** (`problem_to_url(height, width, blocks, clue_row, clue_col)`): frame
-`https://puzz.link/p?aquarium/width/height/<body>`; the independent decoder reads the borders of the partition and then
-the `width` numbers above the board (`clue_col`) followed by the `height` numbers to its left (`clue_row`). -/
+`https://puzz.link/p?aquarium/width/height/<body>`, body `<borders>/<numbers>`; the independent decoder reads the borders of
+the partition and, after the `/`, the `width` numbers above the board (`clue_col`) followed by the `height` numbers to its
+left (`clue_row`).  (Whether pzpr separates the two parts by `/` could not be checked offline: Spec/Pzpr.lean, UNSURE.) -/
 def statement_pzpr_aquarium : Prop :=
   ∀ (h w : Nat) (rooms : List (List (Nat × Nat))) (clueRow clueCol : List Int), 1 ≤ h → 1 ≤ w → DecimalOk h → DecimalOk w →
     ValidPartition h w rooms → clueRow.length = h → clueCol.length = w →
